@@ -30,6 +30,9 @@ checks = {
  "C08": ("exploration", "monitor on StateStorage writes, RequestVote replies and state samples across incarnations",
          "Persisted terms and reply/status terms never decrease per node id across crash-fork restarts; at most one candidate per (node, term) over all SetState calls and granted replies; grants only to up-to-date logs; prevote handlers cause no SetState; granted vote is on disk before the reply exists; reopened state equals last completed write.",
          "same as C01", "5/C08"),
+ "C10": ("exploration", "snapshot content decoded at Close and compared with the canonical history; replica state compared after every Apply/Restore",
+         "Fault-injected cluster runs with snapshots on (threshold 4-30, payloads 0 B to 3.5 chunks, slow Snapshot/Apply/Restore profiles): label = content for every locally taken snapshot, replica state = canonical prefix after every Apply, Restore bytes = a completed snapshot with matching label and canonical content.",
+         "the monitor state machine is an append-only hash chain, so a state names exactly one prefix of one history", "5/C10"),
  "C11": ("exploration", "puppet sweep of InstallSnapshot sequences with boundary probes; snapshot/compaction monitors on storage wrappers",
          "Seed-determined InstallSnapshot request sequences (two source snapshots, 1-3 chunks, any order/duplication/offset, stale/higher terms, crash+restart) against a real node; oracles: installed bytes+label equal a source the sender had, applied/commit never decrease, no restore below applied, no committed entry beyond the label discarded, compaction/discard read-back, replication and vote probes answered as a node with the full log would.",
          "bounded puppet domain; cluster schedules with snapshots are added by the snapshot checks", "5/C11"),
@@ -39,6 +42,12 @@ checks = {
  "C13": ("fault_enumeration", "strace-recorded syscall replay over SetState and snapshot-storage sequences; NewRaft over every image",
          "Every crash point (syscall boundary / write prefix) of seed-determined SetState and snapshot create/write/close/discard sequences; storages and NewRaft must construct first time, values must be last-completed or in-flight, snapshots never partial.",
          "process death only; rename is atomic", "5/C13"),
+ "C19": ("exploration", "round-trip comparison through the real gRPC transport on loopback and the real storages; end-to-end snapshot transfer between two real nodes",
+         "Generated boundary and random values for every field of every RPC and every stored record are sent/written and read back through the bundled implementations and compared field by field; snapshot payloads from 0 B to beyond the default message limit are transferred between two real nodes and compared byte for byte.",
+         "nil == empty for byte slices; loopback networking", "5/C19"),
+ "C20": ("exploration", "Go race detector over repeated stress workloads (simulated network and real gRPC transport)",
+         "The harness is built with -race; many goroutines call every public method while background loops, RPC handlers, role changes, snapshots, membership changes and stop/start run; reports are parsed from the detector's log files, classified by whether both accesses are inside the library, and de-duplicated by function pair.",
+         "only races on interleavings that actually happened are reported", "5/C20"),
 }
 
 not_yet = {
